@@ -33,6 +33,6 @@ Do not edit tests. Do not add new files to the library. Keep the patch small (id
 Deliver, inside {wt}:
   - the change itself, left UNCOMMITTED in the worktree (so that `git -C {wt} diff` shows exactly your patch);
   - a demonstration program {wt}/demo_{pid}.py that exits non-zero (assertion failure) WITH your change and exits 0 WITHOUT it
-    (check both: `git stash` / `git stash pop`), runs in under ~2 minutes, and prints what it observed;
+    (check both — NEVER use `git stash`, it is shared between worktrees; instead `git diff > /tmp/patch_{pid}.diff; git checkout -- jumanji; <run demo>; git apply /tmp/patch_{pid}.diff`), runs in under ~2 minutes, and prints what it observed;
 Then report: the diff, which part of the property it breaks, what it needs in order to manifest, which test files you ran and their result,
 and the demo's output with and without the change.""")
